@@ -23,3 +23,14 @@ Definition tree_disagreements (T F : ptree) (P : parsecfg) (n : nat) : list (N *
     [0; 1]) all_bits.
 Definition tree_agrees_upto (T F : ptree) (P : parsecfg) (n : nat) : bool :=
   match tree_disagreements T F P n with [] => true | _ => false end.
+
+(** The exhaustive token-level correspondence of the check, for the parser given by a regenerated loop tree: the same
+    encoding and checksum as [tok_shard_hash] of KV/KvEnum.v, so the implementation's checksums can be compared with
+    both the hand-written token loop and the tree read off the source. *)
+Definition tree_case (T F : ptree) (P : parsecfg) (bits fin : N) (w : list N) : list N :=
+  bits :: fin :: N.of_nat (length w) :: w
+  ++ enc_pres (parse_toks_tree T F P (mkopts bits) enum_flag (map sym_tok w, fin_of_code fin)).
+Definition tree_shard_hash (T F : ptree) (P : parsecfg) (bits fin : N) (n : nat) : Uint63.int :=
+  sum_hash (map (fun w => hfin (hash_list (tree_case T F P bits fin w))) (words sym_alpha n)).
+Definition tree_shard_cases (T F : ptree) (P : parsecfg) (bits fin : N) (n : nat) : list (list N) :=
+  map (tree_case T F P bits fin) (words sym_alpha n).
